@@ -4,7 +4,7 @@
  "file": "attr.c", "function": "gnuattr", "also_functions": ["gnuattrspec", "parseattr", "strip"],
  "properties": {"C10": "contract", "C06": "contract", "C19": "contract"},
  "mode": "harness",
- "unwind": 12, "unwindset": ["gnuattr.0:4", "gnuattrspec.0:4", "parseattr.0:7", "harness.0:3", "harness.1:3"],
+ "unwind": 12, "unwindset": ["gnuattr.0:5", "gnuattrspec.0:4", "parseattr.0:7", "harness.0:4", "harness.1:4"],
  "variants": {"k0":        ["-DV_K=0", "-DV_N0=0", "-DV_E00=0", "-DV_E01=0", "-DV_N1=0", "-DV_E10=0"],
               "k1_empty":  ["-DV_K=1", "-DV_N0=0", "-DV_E00=0", "-DV_E01=0", "-DV_N1=0", "-DV_E10=0"],
               "k1_p":      ["-DV_K=1", "-DV_N0=1", "-DV_E00=EL_PACKED", "-DV_E01=0", "-DV_N1=0", "-DV_E10=0"],
@@ -14,10 +14,11 @@
               "k1_open":   ["-DV_K=1", "-DV_N0=1", "-DV_E00=EL_FOO_OPEN", "-DV_E01=0", "-DV_N1=0", "-DV_E10=0"],
               "k2_f_up":   ["-DV_K=2", "-DV_N0=1", "-DV_E00=EL_FOO", "-DV_E01=0", "-DV_N1=1", "-DV_E10=EL_UPACKED"],
               "k2_fl_e":   ["-DV_K=2", "-DV_N0=1", "-DV_E00=EL_FOO_LIST", "-DV_E01=0", "-DV_N1=0", "-DV_E10=0"],
+              "k3_p_f_e":  ["-DV_K=3", "-DV_N0=1", "-DV_E00=EL_PACKED", "-DV_E01=0", "-DV_N1=1", "-DV_E10=EL_FOO"],
               "k2_p_open": ["-DV_K=2", "-DV_N0=1", "-DV_E00=EL_PACKED", "-DV_E01=0", "-DV_N1=1", "-DV_E10=EL_FOO_OPEN"]},
  "canary_variant": "k2_f_up",
  "kind": "bounded",
- "bound": "10 shapes (token kinds of the lists constant per CBMC run; closing tokens, terminator, result object symbolic) of 0..2 specifiers `__attribute__ (( list ))` in a row; list of 0..2 elements, each a comma or one of packed, __packed__, foo, foo(1,1), foo((1)), foo(1 <end of input>; closed by `))`, by a single `)`, or cut off by end of input; followed by `;` or an identifier.  Excluded here (FAILS, see ATTR.gnuattr.syntax): two attributes without a comma between them",
+ "bound": "11 shapes (token kinds of the lists constant per CBMC run; closing tokens, terminator, result object symbolic) of 0..3 specifiers `__attribute__ (( list ))` in a row; list of 0..2 elements, each a comma or one of packed, __packed__, foo, foo(1,1), foo((1)), foo(1 <end of input>; closed by `))`, by a single `)`, or cut off by end of input; followed by `;` or an identifier.  Excluded here (FAILS, see ATTR.gnuattr.syntax): two attributes without a comma between them",
  "timeout": 200, "replay": false,
  "assumes": ["next/peek/consume/expect are token-script stand-ins with pp.c's meaning (attr_common2.h); `allowed` contains packed"]
 }
@@ -43,14 +44,14 @@ harness(void)
 	struct attr *a;
 	unsigned in_e00 = V_E00, in_e01 = V_E01, in_n0 = V_N0, in_e10 = V_E10, in_n1 = V_N1;     /* compile-time case split: fixes the script layout */
 	IN(unsigned, in_end); IN(bool, in_termident); IN(bool, in_hasa); IN(int, in_oldkind);
-	unsigned el[2][2] = {{in_e00, in_e01}, {in_e10, EL_COMMA}}, n[2] = {in_n0, in_n1};
+	unsigned el[3][2] = {{in_e00, in_e01}, {in_e10, EL_COMMA}, {EL_COMMA, EL_COMMA}}, n[3] = {in_n0, in_n1, 0};     /* a third specifier is `__attribute__(())` */
 	unsigned i, j, endpos;
 	bool wf = true, cut = false, packed = false, adjacent = false, r;
 
 	__CPROVER_assume(in_e00 < EL_N && in_e01 < EL_N && in_e10 < EL_N && in_n0 <= 2 && in_n1 <= 1 && in_end < END_N && in_oldkind >= 0 && in_oldkind <= 15);
 	names_init();
 	s_n = 0;
-	for (i = 0; i < 2; i++)
+	for (i = 0; i < 3; i++)
 		if (i < V_K && !cut) {
 			bool prev_attr = false;
 			put(T__ATTRIBUTE__, 0); put(TLPAREN, 0); put(TLPAREN, 0);
